@@ -19,7 +19,8 @@
    as the real thread does.  `e3u_expand` turns a MODEL-level schedule (entry e: thread e mod n; e / n = 1 means "the
    timer finds the deadline of that sleeper expired" = `utimer`; entries that are not enabled are skipped) into the E3
    schedule, completes it (lowest enabled thread first, then expired timers) until nobody can move and returns the
-   final model state; the harness replays the E3 schedule and the two outcomes are compared. *)
+   final model state (+ one flavor-2 entry per thread still asleep: the harness dismisses that OS thread, channel state
+   untouched); the harness replays the E3 schedule and the two outcomes are compared. *)
 From Coq Require Import ZArith List Bool Arith.
 From PV Require Import Base.U64 C09.C09_Common C09.C09_Unbuf.
 Import ListNotations.
@@ -147,8 +148,11 @@ Definition e3u_expand (ps : list (list op)) (ms : list nat) : e3u_result :=
   let '(s1, a1) := e3u_sched n s0 ms [] in
   let '(s2, a2) := e3u_complete 4000 n s1 a1 in
   let evs := rev (u_log s2) in
-  mkE3UR a2
+  let blocked := filter (fun t => negb (match u_prog s2 t with [] => true | _ => false end)) (seq 0 n) in
+  (* the participants that are still asleep when nobody can move are dismissed one by one (flavor 2: the harness thread
+     leaves its cv wait without touching the channel and ends), so that every replay ends with all OS threads joined *)
+  mkE3UR (a2 ++ map (fun t => (t + 2 * n)%nat) blocked)
          (map (fun t => map uev_val (filter (fun e => Nat.eqb (e_t e) t) evs)) (seq 0 n))
-         (filter (fun t => negb (match u_prog s2 t with [] => true | _ => false end)) (seq 0 n))
+         blocked
          (match u_slot s2 with Some (a, b) => 1000 * Z.of_nat a + Z.of_nat b | None => -1 end)
          (u_closed s2) (u_sw s2) (u_rw s2) (u_seq s2) (u_scv s2) (u_rcv s2) (u_mtx s2).
